@@ -37,6 +37,11 @@ pub struct Spec {
     /// the in-flight connection keeps waiting for its backend this long (real time) after the stop
     #[serde(default)]
     drain_ms: u64,
+    /// a third connection F (a status client) is in progress when the stop is requested and comes to a bad end
+    /// during the drain: status-backend-panics | status-backend-fails | sends-garbage | hangs-up. The
+    /// cooperating connection A must not notice.
+    #[serde(default)]
+    fault: Option<String>,
 }
 
 struct InFlight {
@@ -108,7 +113,84 @@ fn run_schedule(spec: &Spec) -> Vec<(String, String)> {
     common::machinery("could not bring the in-flight connections to their progress points in three attempts")
 }
 
+/// A (cooperating, at point spec.a) and F (a status client whose handshake has been sent) are in progress;
+/// stop; F comes to its bad end; A is driven to completion and must receive what an undisturbed login
+/// receives; then listen() must return.
+fn run_fault_schedule_once(spec: &Spec) -> Option<Vec<(String, String)>> {
+    let fault = spec.fault.clone().unwrap_or_default();
+    run_local(async {
+        let mut v: Vec<(String, String)> = vec![];
+        let mut adapters = NetAdapters::new();
+        let gate = Arc::new(Semaphore::new(0));
+        adapters.gate = Some(gate.clone());
+        let f_ip: std::net::IpAddr = "127.0.0.5".parse().unwrap();
+        match fault.as_str() {
+            "status-backend-panics" => adapters.panic_ips = vec![f_ip],
+            "status-backend-fails" => adapters.fail_ips = vec![f_ip],
+            _ => {}
+        }
+        let cfg = ListenerCfg { timeout: Duration::from_secs(30), ..Default::default() };
+        let running = start_listener(&cfg, adapters).await;
+        let Some(mut a) = drive_to(running.addr, spec.a, &gate, "127.0.0.2", false).await else {
+            running.stop.cancel();
+            return None;
+        };
+        let Ok(mut f) = McClient::connect(running.addr, Some(f_ip)).await else {
+            running.stop.cancel();
+            return None;
+        };
+        if f.send(&common::refs::codec::sb_handshake(769, "faulty.example", 25565, 1)).await.is_err() {
+            running.stop.cancel();
+            return None;
+        }
+        tokio::time::sleep(Duration::from_millis(25)).await;
+        running.stop.cancel();
+        tokio::time::sleep(Duration::from_millis(30)).await;
+        let mut done = running.done;
+        if done.is_finished() {
+            v.push(("listener-returned-with-connections-in-flight".into(), "listen() returned right after the stop although two connections are in progress".into()));
+        }
+        // ---- F comes to its bad end during the drain
+        match fault.as_str() {
+            "status-backend-panics" | "status-backend-fails" => {
+                let _ = f.send(&common::refs::codec::sb_status_request()).await;
+            }
+            "sends-garbage" => {
+                let _ = f.send_raw(&[0xff, 0xff, 0xff, 0xff, 0xff, 0x01, 0x02]).await;
+            }
+            _ => drop(f.stream.set_linger(Some(Duration::ZERO))),
+        }
+        if fault == "hangs-up" {
+            drop(f);
+        } else {
+            let _ = f.wait_closed(Duration::from_millis(500)).await;
+        }
+        tokio::time::sleep(Duration::from_millis(30)).await;
+        if spec.a < 6 && done.is_finished() {
+            v.push(("listener-returned-with-connections-in-flight".into(), format!("listen() returned when another connection ended badly ({fault}) although A ({}) is unfinished", POINTS[spec.a])));
+        }
+        // ---- A is driven to completion
+        gate.add_permits(2);
+        let p = LoginParams { wait: Duration::from_secs(2), ..Default::default() };
+        let from = a.out.stage;
+        a.client.login(&p, from, Stage::Transferred, &mut a.out).await;
+        if a.out.stage != Stage::Transferred || kinds(&a.out) != BASELINE {
+            v.push((format!("in-flight-connection-not-completed:{}:other-connection-{fault}", POINTS[a.point]), format!("A (at '{}' when the stop was requested) received {:?}, stage {:?}, error {:?} after another in-flight connection ended badly ({fault}); an undisturbed login receives {BASELINE:?}", POINTS[a.point], kinds(&a.out), a.out.stage, a.out.error)));
+        }
+        let _ = a.client.wait_closed(Duration::from_secs(2)).await;
+        match tokio::time::timeout(Duration::from_secs(2), &mut done).await {
+            Ok(Ok(Ok(()))) => {}
+            Ok(other) => v.push(("listener-failed".into(), format!("after another connection ended badly ({fault}): {other:?}"))),
+            Err(_) => v.push(("listener-does-not-return-after-drain".into(), format!("listen() had not returned 2 s after the last in-flight connection finished ({fault})"))),
+        }
+        Some(v)
+    })
+}
+
 fn run_schedule_once(spec: &Spec) -> Option<Vec<(String, String)>> {
+    if spec.fault.is_some() {
+        return run_fault_schedule_once(spec);
+    }
     run_local(async {
         let mut v: Vec<(String, String)> = vec![];
         let mut adapters = NetAdapters::new();
@@ -301,6 +383,13 @@ fn run_via_start_once(spec: &Spec) -> Option<Vec<(String, String)>> {
 }
 
 pub fn run(cli: Cli) -> ! {
+    // the backend panic of the fault schedules is part of the scenario: keep it out of the output
+    let prev = std::panic::take_hook();
+    std::panic::set_hook(Box::new(move |info| {
+        if !info.to_string().contains("(on purpose)") {
+            prev(info)
+        }
+    }));
     let rep = Report::new("C17", cli.tier, "model_checking");
     if let Some(case) = cli.replay.clone() {
         let spec: Spec = serde_json::from_value(case["spec"].clone()).unwrap_or_else(|e| common::machinery(&format!("bad replay: {e}")));
@@ -319,12 +408,12 @@ pub fn run(cli: Cli) -> ! {
     let mut specs = vec![];
     for a in 0..7 {
         for m in 0..3 {
-            specs.push(Spec { a, b: usize::MAX, new_conn_at: m, a_stalls: false, via_start: false, proxy: false, drain_ms: 0 });
-            specs.push(Spec { a, b: a, new_conn_at: m, a_stalls: false, via_start: false, proxy: false, drain_ms: 0 });
+            specs.push(Spec { a, b: usize::MAX, new_conn_at: m, a_stalls: false, via_start: false, proxy: false, drain_ms: 0, fault: None });
+            specs.push(Spec { a, b: a, new_conn_at: m, a_stalls: false, via_start: false, proxy: false, drain_ms: 0, fault: None });
             if thorough {
                 for b in 0..7 {
                     if b != a {
-                        specs.push(Spec { a, b, new_conn_at: m, a_stalls: false, via_start: false, proxy: false, drain_ms: 0 });
+                        specs.push(Spec { a, b, new_conn_at: m, a_stalls: false, via_start: false, proxy: false, drain_ms: 0, fault: None });
                     }
                 }
             }
@@ -332,7 +421,7 @@ pub fn run(cli: Cli) -> ! {
     }
     if !thorough {
         for (a, b) in [(0, 6), (6, 0), (5, 2), (3, 5)] {
-            specs.push(Spec { a, b, new_conn_at: 1, a_stalls: false, via_start: false, proxy: false, drain_ms: 0 });
+            specs.push(Spec { a, b, new_conn_at: 1, a_stalls: false, via_start: false, proxy: false, drain_ms: 0, fault: None });
         }
     }
     // the same placements with PROXY protocol enabled (point 0 = accepted, header still outstanding)
@@ -343,14 +432,20 @@ pub fn run(cli: Cli) -> ! {
         }
     }
     for a in [0, 3, 5] {
-        specs.push(Spec { a, b: usize::MAX, new_conn_at: 0, a_stalls: true, via_start: false, proxy: false, drain_ms: 0 });
+        specs.push(Spec { a, b: usize::MAX, new_conn_at: 0, a_stalls: true, via_start: false, proxy: false, drain_ms: 0, fault: None });
     }
-    specs.push(Spec { a: 0, b: usize::MAX, new_conn_at: 0, a_stalls: true, via_start: false, proxy: true, drain_ms: 0 });
+    specs.push(Spec { a: 0, b: usize::MAX, new_conn_at: 0, a_stalls: true, via_start: false, proxy: true, drain_ms: 0, fault: None });
     for a in [0, 2, 4] {
-        specs.push(Spec { a, b: usize::MAX, new_conn_at: 0, a_stalls: false, via_start: true, proxy: false, drain_ms: 0 });
+        specs.push(Spec { a, b: usize::MAX, new_conn_at: 0, a_stalls: false, via_start: true, proxy: false, drain_ms: 0, fault: None });
+    }
+    // another in-flight connection comes to a bad end during the drain
+    for fault in ["status-backend-panics", "status-backend-fails", "sends-garbage", "hangs-up"] {
+        for a in if thorough { vec![0usize, 1, 2, 3, 4, 5] } else { vec![3usize, 5] } {
+            specs.push(Spec { a, b: usize::MAX, new_conn_at: 0, a_stalls: false, via_start: false, proxy: false, drain_ms: 0, fault: Some(fault.into()) });
+        }
     }
     // a drain that lasts longer than any built-in default (10 s): the configured timeout (30 s) is what bounds it
-    specs.push(Spec { a: 5, b: usize::MAX, new_conn_at: 1, a_stalls: false, via_start: false, proxy: false, drain_ms: 11_500 });
+    specs.push(Spec { a: 5, b: usize::MAX, new_conn_at: 1, a_stalls: false, via_start: false, proxy: false, drain_ms: 11_500, fault: None });
     let two = AtomicU64::new(0);
     par_for(specs.len(), |i| {
         // the slow schedules are at the end of the list; start them first
@@ -371,7 +466,7 @@ pub fn run(cli: Cli) -> ! {
     rep.set("evaluations", json!(specs.len()));
     rep.set("distinct_nontrivial", json!(specs.len()));
     rep.set("exhaustive", json!(true));
-    rep.set("rule", json!("placements of one or two in-flight connections over 7 progress points (accepted, handshake sent, login start sent, encryption request received, login success received, waiting for a gated backend, backend done but Transfer unread) x the moment a new connection is attempted (right after the stop, after A finished, after both finished); quick: single connections and equal pairs plus four mixed pairs, thorough: all 49 pairs; three schedules with a non-cooperating client and a 1 s connection timeout; three schedules through passage::start stopped by SIGINT. Each schedule is distinct."));
+    rep.set("rule", json!("placements of one or two in-flight connections over 7 progress points (accepted, handshake sent, login start sent, encryption request received, login success received, waiting for a gated backend, backend done but Transfer unread) x the moment a new connection is attempted (right after the stop, after A finished, after both finished); quick: single connections and equal pairs plus four mixed pairs, thorough: all 49 pairs; three schedules with a non-cooperating client and a 1 s connection timeout; three schedules through passage::start stopped by SIGINT; schedules in which a third in-flight connection ends badly during the drain (its backend panics or fails, it sends garbage, it hangs up) while the cooperating one must still complete. Each schedule is distinct."));
     rep.sample(json!({"spec": specs[0]}));
     rep.sample(json!({"spec": specs[specs.len() - 1]}));
     rep.assume("the slow backend is a semaphore the harness opens (no real time); observations are taken at barriers with 2 s deadlines; a connection opened after the stop is 'not served' if it receives no byte within 300 ms");
